@@ -25,6 +25,8 @@ static int g_choices[4096], g_nchoices, g_choice_pos;
 static long g_failalloc, g_alloc_count; static int g_fault_alloc_on;
 static long g_failio, g_io_count; static char g_failio_kind[32]; static int g_fault_io_on, g_io_failed_flag, g_alloc_failed_flag;
 static FILE* g_pending_err_stream;
+static char* g_pokes[8192]; static int g_npokes;
+void* __real_malloc(size_t);
 static long g_interfere_at, g_interfere_pos, g_unlocked_freads; static int g_interfere_on;
 
 static void load(void) {
@@ -38,6 +40,12 @@ static void load(void) {
         if (!strcmp(kw, "in")) { unsigned v; if (fscanf(f, "%127s %u", nm, &v) != 2) break; if (g_nin < MAXIN) { strncpy(g_in[g_nin].name, nm, 63); g_in[g_nin].val = v; g_nin++; } }
         else if (!strcmp(kw, "choice")) { int k; if (fscanf(f, "%d", &k) != 1) break; g_choices[g_nchoices++] = k; }
         else if (!strcmp(kw, "failalloc")) { if (fscanf(f, "%ld", &g_failalloc) != 1) break; }
+        else if (!strcmp(kw, "reset") || !strcmp(kw, "poke")) {
+            static char line[40000]; if (!fgets(line, sizeof line, f)) break;
+            char* q = line; while (*q == ' ') q++; size_t n = strlen(q); while (n && (q[n - 1] == '\n' || q[n - 1] == ' ')) q[--n] = 0;
+            if (g_npokes < 8192) { char* c_ = __real_malloc(n + 1); memcpy(c_, q, n + 1); g_pokes[g_npokes++] = c_; }
+        }
+        else if (!strcmp(kw, "pokeincomplete")) { int x; if (fscanf(f, "%d", &x) != 1) break; }
         else if (!strcmp(kw, "interfere")) { if (fscanf(f, "%ld %ld", &g_interfere_at, &g_interfere_pos) != 2) break; }
         else if (!strcmp(kw, "failio")) { if (fscanf(f, "%ld %31s", &g_failio, g_failio_kind) != 2) break; }
     }
@@ -65,6 +73,16 @@ int symx_live_heap(void) { return 0; }
 int symx_is_symbolic(uint64_t v) { (void)v; return 0; }
 void symx_interfere(int on) { load(); g_interfere_on = on; }
 void symx_omp_permute(int on) { (void)on; }
+/* store-prefix states cannot be produced natively (they are states of ANOTHER thread's partial progress): the native run executes
+ * the sequential case only */
+void symx_store_log_begin(void) {}
+int symx_store_log_end(void) { return 1; }
+static void apply_hex(unsigned long addr, const char* hex) { uint8_t* p = (uint8_t*)addr; for (size_t i = 0; hex[2 * i] && hex[2 * i + 1]; i++) { unsigned b; sscanf(hex + 2 * i, "%2x", &b); p[i] = (uint8_t)b; } }
+/* the recorded state "another thread is k stores into the initialiser" is written straight into this executable's globals */
+void symx_store_prefix(int k) {
+    (void)k; load();
+    for (int i = 0; i < g_npokes; i++) { unsigned long a; char* sp = strchr(g_pokes[i], ' '); if (!sp) continue; a = strtoul(g_pokes[i], NULL, 16); apply_hex(a, sp + 1); }
+}
 
 static const char* mapname(const char* name, char* buf, size_t cap) {
     const char* t = getenv("SYMX_TMP"); if (!t) t = "/tmp";
